@@ -40,6 +40,13 @@ C14Cases ==
      BaseCase("c14", "big-" \o Acts[a], <<In("a", BigShapes[s], FALSE)>>, <<"big,any">>, <<Ins(Acts[a], NoPar, <<1>>)>>)
      @@ [outs |-> <<TOut(2, BigShapes[s], TUnary(IF Acts[a] = "tanhact" THEN "tanh" ELSE Acts[a], One))>>]]])
 
+(* long Softmax fibres with inputs at the documented bound 700 (e^700 * 8200 is still finite) next to fibres far below it *)
+SoftSpecs == << <<<<2, 8200>>, 1>>, <<<<8200>>, 0>>, <<<<3, 2100, 2>>, 1>>, <<<<9000, 2>>, 0>> >>
+C14SoftCases == [s \in DOMAIN SoftSpecs |->
+   LET d == SoftSpecs[s][1] dim == SoftSpecs[s][2]
+   IN BaseCase("c14", "big-softmax", <<In("a", d, FALSE)>>, <<"halves700,small,halves700">>, <<Ins("softmax", [dim |-> dim, nilconf |-> FALSE], <<1>>)>>)
+      @@ [outs |-> <<TOut(2, d, TSoftmax(d, dim))>>, props |-> <<"nonneg", "finite">>]]
+
 (* ---- c05: reductions ---- *)
 WholeShapes == << <<64, 64>>, <<1, 5000>>, <<4100, 2>>, <<4, 4, 4, 4, 4, 4>>, <<1100>> >>
 WholeOps == <<"sum", "max", "min", "avg", "mean", "var", "std">>
@@ -152,7 +159,7 @@ C02Cases ==
            cc(<<40, 64>>, <<33, 64>>, 1), cc(<<66, 30>>, <<66, 40>>, 2), cc(<<2100>>, <<2100>>, 1),
            pa(<<70, 64>>, <<<<2, 68>>, <<3, 63>>>>), pa(<<4200>>, <<<<50, 4150>>>>), pa(<<5, 16, 16>>, <<<<1, 5>>, <<0, 16>>, <<0, 16>>>>) >>
 
-Cases == MyCases(CASE Fam = "c02" -> C02Cases [] Fam = "c06" -> C06Cases [] Fam = "c03" -> C03Cases [] Fam = "c14" -> C14Cases [] Fam = "c05" -> C05Cases
+Cases == MyCases(CASE Fam = "c02" -> C02Cases [] Fam = "c06" -> C06Cases [] Fam = "c03" -> C03Cases [] Fam = "c14" -> C14Cases \o C14SoftCases [] Fam = "c05" -> C05Cases
                    [] Fam = "c04" -> C04Cases [] Fam = "c07" -> C07Cases [] Fam = "c17" -> C17Cases)
 
 (* ---- the templates are checked against the declarative definitions on the small grid ---- *)
@@ -215,6 +222,7 @@ TemplatesAgree ==
         UnrollAll(TUnary(UnSpecs[u][1], UnSpecs[u][2]), Prod(d)) = Unary(UnSpecs[u][1], UnSpecs[u][2], SymT("a", d)).data
   /\ \A d \in Small : UnrollAll(TUnary("relu", One), Prod(d)) = Relu(SymT("a", d)).data
                    /\ UnrollAll(TUnary("sigmoid", One), Prod(d)) = Sigmoid(SymT("a", d)).data
+  /\ \A d \in Small : \A dim \in 0..(Len(d) - 1) : UnrollAll(TSoftmax(d, dim), Prod(d)) = Softmax(SymT("a", d), dim).data
   /\ \A d \in Small : \A op \in {"add", "mul", "sub", "div", "gt", "elmax", "elmin"} :
         UnrollAll(TBinary(op, d, d), Prod(d)) = Binary(op, SymT("a", d), SymT("b", d)).data
   /\ \A d \in Small : \A k \in 1..Len(d) :                       \* b's shape a proper suffix of a's
